@@ -45,6 +45,7 @@ AVAS = [
     {'mail': ['alice@b.example'], 'sn': ['Smith']},
     {'givenName': ['Bob'], 'eduPersonAffiliation': ['staff', 'member']},
     {},
+    None,       # session information without an 'ava' entry at all (what session_info() of an authorisation-decision answer looks like): contributes no attributes
 ]
 EXPIRY_OFFSETS = [-101, -1, 1, 101, 1000001]
 
@@ -154,16 +155,21 @@ def run_history(case, backends=('mem', 'file')):
                 exp = now + EXPIRY_OFFSETS[eo]
                 k = _key(ni)
                 src = SOURCES[si]
-                info = {'ava': dict((a, list(v)) for a, v in AVAS[ai].items()), 'came_from': 'cf-%d-%d' % (ni, si),
+                info = {'ava': dict((a, list(v)) for a, v in (AVAS[ai] or {}).items()), 'came_from': 'cf-%d-%d' % (ni, si),
                         'not_on_or_after': exp, 'marker': 'm-%d-%d-%d' % (ni, si, ai)}
+                no_ava = AVAS[ai] is None
                 subjects_touched.add(k)
                 if name == 'set':
-                    def f(c, p, ni=ni, src=src, info=info, exp=exp):
+                    def f(c, p, ni=ni, src=src, info=info, exp=exp, no_ava=no_ava):
                         i2 = copy.deepcopy(info); i2['name_id'] = _nid(ni)
+                        if no_ava:
+                            del i2['ava']
                         return c.set(_nid(ni), src, i2, exp)
                 else:
-                    def f(c, p, ni=ni, src=src, info=info, exp=exp):
+                    def f(c, p, ni=ni, src=src, info=info, exp=exp, no_ava=no_ava):
                         i2 = copy.deepcopy(info); i2['name_id'] = _nid(ni); i2['issuer'] = src
+                        if no_ava:
+                            del i2['ava']
                         p.add_information_about_person(i2)
                         return None
 
